@@ -188,6 +188,7 @@ def main() -> None:
     chk.extra["rule"] = ("solver tier: one case per (generated SQL template x clause); bounded tier: one case per generated "
                          "program x dataset (distinct by rendered text + data); non-trivial = solver run / compared with the reference")
     chk.extra["unspecified_left_out"] = RV.UNSPECIFIED
+    chk.extra["null_antecedent_clause_sources"] = RV.NULL_ANTECEDENT_SOURCES   # `when` NULL => outcome NULL (was unspecified)
     chk.extra["bounds"] = {"rules_per_ruleset": "1-5" if thorough else "1-3", "code_items": "A-E", "groups": 3,
                            "validation_modes": list(RV.MODES), "hierarchy_input_modes": ["rule", "dataset", "rule_priority"],
                            "outputs": ["invalid", "all", "all_measures", "computed", "all"]}
